@@ -179,3 +179,17 @@ def all_paths_order(ctx, rule, key, site, paths, first, then, msg, require_first
     ctx.check(bad is None, rule, key, site, msg,
               'NOT on every path: %s; counter-path %s' % (msg, bad[0].describe()[:300] if bad else ''))
     return n
+
+
+def raise_model(repo, only=None):
+    """may_raise callback for PathSim: the exception types that the (RTA) callees of a call can let escape."""
+    ex = exceptions(repo)
+
+    def mr(e):
+        out = set()
+        for t in e.targets:
+            for rs in ex.escapes(t):
+                if only is None or rs.exc in only:
+                    out.add(rs.exc)
+        return sorted(out)
+    return mr
